@@ -87,7 +87,8 @@ def generate(seed, tier):
     layouts = [{"ops": c06.layout_ops(wrng, rounds, baseline=True), "knobs": {}}]
     for _ in range(mrng.randint(1, 2)):
         knobs = {"blocklimit": wrng.choice((1, 2, 3, 8, 128)), "compound": wrng.random() < 0.6}
-        layouts.append({"ops": c06.layout_ops(wrng, rounds, merges=("none", "none", "optimize", "custom")), "knobs": knobs})
+        layouts.append({"ops": c06.layout_ops(wrng, rounds, merges=("none", "none", "optimize", "custom")), "knobs": knobs,
+                        "refresh": mrng.random() < 0.4})
     qr = random.Random("%s/queries" % seed)
     w = mrng.choice(("bm25f", "bm25f", "bm25f_params", "bm25f_fieldb", "tfidf", "frequency", "pl2", "dfree", "multi", "reverse", "function",
                      "bm25f_final"))
@@ -212,13 +213,31 @@ def reference_leaf(wspec, field, text, docs, schema, field_names, avg_override=N
     return out
 
 
-def measure(s, ix, record):
+def warm(s, ix, record):
+    """A long-lived searcher that has already scored every leaf (its caches are warm)."""
+    from whoosh import query
+    srch = ix.searcher(weighting=make_weighting(record["weighting"]))
+    lv = set()
+    for spec in record["queries"]:
+        leaves(spec, lv)
+    for (f, t) in sorted(lv):
+        try:
+            list(srch.search(query.Term(f, t), limit=None))
+            list(srch.search(query.Term(f, t), limit=2, sortedby="k"))
+        except (SimAbort, SimKilled, HarnessError):
+            raise
+        except Exception as e:  # noqa
+            raise Violation("search_raised", "warm-up search raised %s: %s" % (type(e).__name__, e), sig="search_raised:" + exc_sig(e))
+    return srch
+
+
+def measure(s, ix, record, searcher=None):
     """Scores of every query and leaf on this layout: returns tables."""
     weighting = make_weighting(record["weighting"])
     mi = s.model
     tables = {"leaf": {}, "query": [], "limited": [], "limited_neutralised": [], "filtered": [], "flen": {}}
     from whoosim.props.c05 import neutralise_unscaled_boost, has_boost_above_one
-    with ix.searcher(weighting=weighting) as srch:
+    with (searcher if searcher is not None else ix.searcher(weighting=weighting)) as srch:
         # a final() hook adds FINAL_ADJ * uid to every hit (its documented effect); it is taken
         # out again here, so that what remains must obey the rules of plain BM25F
         from whoosim.props.c05 import FINAL_ADJ
@@ -346,9 +365,26 @@ def run_layout(record, li):
                 s.merged = True
         actor = HistActor(s, before_commit=before_commit)
         try:
-            actor.run(lay["ops"])
+            ops = lay["ops"]
+            starts = [i for i, op in enumerate(ops) if op[0] == "writer"]
+            refreshed = None
+            if lay.get("refresh") and len(starts) >= 2:
+                # the statistics behind a score are those of the generation searched: a searcher
+                # that scored the same terms one generation ago and was refresh()ed must agree
+                actor.run(ops[:starts[-1]])
+                old = warm(s, actor.ensure_index(), record)
+                actor.run(ops[starts[-1]:])
+                try:
+                    refreshed = old.refresh()
+                except (SimAbort, SimKilled, HarnessError):
+                    raise
+                except Exception as e:  # noqa
+                    raise Violation("search_raised", "refresh() raised %s: %s" % (type(e).__name__, e), sig="refresh_raised:" + exc_sig(e))
+                s.count("measured_through_refresh")
+            else:
+                actor.run(ops)
             s.count("probes")
-            tables = measure(s, actor.ix, record)
+            tables = measure(s, actor.ensure_index(), record, searcher=refreshed)
             check_layout(s, record, tables, li)
             st = s.full_stats()
             st["events"] = s.k.seq
